@@ -21,16 +21,17 @@ ENTRY = {
     ],
     "min_tags": {"decode": 1, "dec-multibatch": 1, "scatter": 1, "f-transport": 1, "f-http": 1, "f-bad": 1, "f-digest": 1, "f-trunc": 1, "pair": 1,
                  "shape-Concat": 1, "shape-TwoPhase": 1, "shape-Gather": 1, "res-err-transport": 1, "res-err-payload": 1},
-    "explanation": "K is relational over the deviation switches of finding C10-F1: an implementation output is accepted if it equals the intended model or the model with a listed switch set; "
-                   "an oracle failure is attributed to C10-F1 only if the output equals a model with a switch on AND the intended model satisfies the oracle on that case.",
+    "explanation": "K compares with the intended model (all deviation switches off). The driver can additionally accept the model with the switches of an OPEN finding set "
+                   "(attribution only if that model explains the output exactly and the intended model satisfies the oracle); the list is empty since C10-F1 was fixed (caf22ad). "
+                   "Each decode case also runs the patched decoder compiled into the harness and requires it to equal the intended model.",
     "manifest": {
         "category": "proof",
         "text": "Lean theorems over the executable model of the scatter-gather coordinator: any failing active shard of any table (own shard, transport error, HTTP error, undecodable payload) "
                 "makes the query a fragment error and the final step never runs; an answer is produced iff every active shard delivered a complete payload and then consists of all of them; "
                 "every strict prefix of a framed Arrow IPC fragment response is rejected provided the decoder demands the end-of-stream marker (alternatively: the declared row count or the "
                 "declared length is enforced). Tied to the code by correspondence: real in-process participants over real Parquet files behind a fault-injecting FragmentTransport, and "
-                "decode_ipc on every truncation offset of real fragment bodies. Known finding C10-F1: today's decode_ipc accepts a body cut at a message boundary and the coordinator "
-                "ignores the declared row count (kernel-checked witness + replayed witness; fix proposed).",
+                "decode_ipc on every truncation offset of real fragment bodies. Finding C10-F1 (decode_ipc accepted a body cut at a message boundary; the coordinator "
+                "ignored the declared row count) was repaired by /repo commit caf22ad; its kernel-checked witness stays in the proof file and its replay witness in corpus/C10.",
         "design_ref": "DESIGN.md §6 C10",
         "level_note": "Trusted: Lean kernel; axioms propext/Classical.choice/Quot.sound; the hand-written model of the coordinator loop and of arrow-ipc's message reader (validated by correspondence only); "
                       "the harness's fault injector and generators. Not covered: socket-level truncation (C16), checksum-less corruption inside a well-framed payload, failure of the initiator's own shard (theorem only).",
